@@ -152,6 +152,16 @@ CHECKS = {
    note="NOT decided - and this is most of the property: returned values being the lowest eigenvalues, orthonormality, residual "
         "bounds, convergence for diagonally dominant matrices, the Hamiltonian mode. Those are numerical and outside static analysis. "
         "xtp is not built here; units parsed with synthesised flags."),
+ "C14": dict(cat="proof", ref="DESIGN.md section 4 C14",
+   technique="symbolic folding of Marcusrate / Rate / InitEscapeRate / Promotetime with exact algebraic identities (detailed balance, linearity, positivity); AST decision tables; orientation agreement between tree construction, probability shifting, descent and leaf choice",
+   text="Decides the closed-form clauses for all pairs, temperatures and fields: the Marcus expression satisfies k(dG)/k(-dG) = exp(dG/kT) "
+        "for equal reorganisation energies, is linear in J^2 and positive; Rate() feeds +dG/-dG with the same coupling, the charge "
+        "table and the q R.F term, and the reverse event uses -R; the escape rate is the sum of event rates from zero; the waiting "
+        "time is -ln(u)/k. For the selection tree only necessary structural conditions are decided (both leaves set on last-level nodes, "
+        "one orientation used throughout).",
+   note="NOT decided: that the lookup thresholds partition [0,1] in proportion to the rates (dynamics of the priority-queue "
+        "construction), uniformity of the random numbers, the physical sign convention of the field term (the code's dG = (E1-E2) + q R.F "
+        "is taken as the definition). xtp is parsed, not built."),
 }
 NA = {
 }
